@@ -53,8 +53,13 @@ class Ctx:
 
 class SubCheck:
     def __init__(self, name, strategy, fn, rule, quick=(16, 100),
-                 thorough=(16, 2000), budget_quick=70, budget_thorough=1500):
+                 thorough=(16, 2000), budget_quick=70, budget_thorough=1500,
+                 hang_is_violation=False):
         self.name = name
+        # only for sub-checks whose cases take milliseconds and whose property
+        # says "never ... an exception": a case that does not return within
+        # the per-case watchdog (120 s) is reported as non-termination
+        self.hang_is_violation = hang_is_violation
         self.strategy = strategy
         self.fn = fn
         self.rule = rule
